@@ -315,7 +315,7 @@ pub fn sim_engine(prop: &str) -> Option<SimEngine> {
 /// Bounded exhaustive enumeration of small scenarios before the random search (see enumsim.rs).
 fn systematic_phase(prop: &'static str, tier: Tier, seed: u64) {
     let (budget, depth) = match (tier, prop) {
-        (Tier::Quick, _) => (2400u64, 14usize),
+        (Tier::Quick, _) => (3200u64, 14usize),
         (Tier::Thorough, "C09") => (400_000u64, 24usize),
         (Tier::Thorough, _) => (120_000u64, 24usize),
     };
